@@ -25,15 +25,23 @@ SPEC_RE = re.compile(r"_[0-9a-f]{32}$")
 # cases
 # ---------------------------------------------------------------------------
 
-def gen_ops(fam, rng, helper, nops, meta=None):
+def gen_ops(fam, rng, helper, nops, meta=None, sticky=0.0):
+    """sticky: probability of repeating the previous op's (class, entry point, direction) - the same call with another
+    dialect / other flags / another value right after: the order in which dialects and flags are first used"""
     ops = []
+    prev = None
     mix = [i for i, c in enumerate(fam["classes"]) if F.entry_points(fam, i)]
     tries = 0
     while len(ops) < nops and tries < nops * 6:
         tries += 1
-        i = rng.choice(mix)
+        if prev is not None and rng.random() < sticky:
+            i, (fmt, pk, up), force_pack = prev
+        else:
+            i = rng.choice(mix)
+            fmt, pk, up = rng.choice(F.entry_points(fam, i))
+            force_pack = rng.random() < 0.5
+        prev = (i, (fmt, pk, up), force_pack)
         c = fam["classes"][i]
-        fmt, pk, up = rng.choice(F.entry_points(fam, i))
         d = rng.choice([None, "D1", "D2"]) if c["dsup"] else None
         kws = []
         if d:
@@ -55,7 +63,7 @@ def gen_ops(fam, rng, helper, nops, meta=None):
             pkws.append("encoder=enc_mark")
         pack = f"{val}.{pk}({', '.join(pkws)})"
         r = rng.random()
-        if r < 0.5:
+        if force_pack:
             ops.append(pack)
             if meta is not None:
                 meta.append({"cls": i, "fmt": fmt, "pack": True, "dialect": d, "tree": tree, "valid": True})
@@ -69,7 +77,7 @@ def gen_ops(fam, rng, helper, nops, meta=None):
                 wire = eval(wire_pack, helper.__dict__)
         except BaseException:
             continue
-        if r > 0.93 and isinstance(wire, dict) and wire:
+        if r > 0.86 and isinstance(wire, dict) and wire:
             wire = dict(wire)
             wire.pop(rng.choice(sorted(wire)), None)      # an invalid input: the error path through stubs
             valid = False
@@ -98,7 +106,7 @@ def gen_case(rng, nops=6, max_classes=5, focus=None):
         return {"fam": fam, "skip": "twin-creation-" + type(e).__name__}
     meta = []
     try:
-        ops = gen_ops(fam, rng, helper, nops, meta)
+        ops = gen_ops(fam, rng, helper, nops, meta, sticky=0.5 if focus == "kwargs" else 0.15)
     finally:
         F.unload(helper)
     return {"fam": fam, "mode": mode, "order": order, "lazy": lazy, "src": src, "twin_src": twin_src, "ops": ops, "opmeta": meta}
@@ -169,7 +177,9 @@ def classify(fam, op, got, exp, got_aux, exp_aux, got_snap, exp_snap, src="") ->
     kind is one of the known-finding kinds only when the precise predicate of that finding holds on the
     side that failed; otherwise 'history-dependence' (= a violation)."""
     sig = {"kind": "history-dependence", "got": got[1] if got[0] == "EXC" else "OK", "exp": exp[1] if exp[0] == "EXC" else "OK"}
-    if "Discriminator(" in src:
+    attr_err = any(o[0] == "EXC" and len(o) > 3 and o[3] == "AttributeError" for o in (got, exp))
+    if "Discriminator(" in src and not attr_err:
+        # (a missing method - AttributeError - is a different failure: not this finding)
         for side, snap in (("family", got_snap), ("twin", exp_snap)):
             if variant_inherits_method(fam, snap, op):
                 return {**sig, "kind": "discriminator-variant-runs-inherited-method", "side": side}
@@ -571,7 +581,7 @@ def run(ctx: vlib.Ctx):
         from harness.props import c14_coq
         c14_coq.theorems(ctx)
         cases = []
-        oracle_histories(ctx, ctx.budget(90, 1500), keep_cases=cases)
+        oracle_histories(ctx, ctx.budget(90, 1300), keep_cases=cases)
         oracle_histories(ctx, ctx.budget(60, 500), keep_cases=cases, focus="spec")
         oracle_histories(ctx, ctx.budget(60, 500), keep_cases=cases, focus="kwargs")
         tie_ok = c14_coq.correspondence(ctx, cases)
